@@ -185,6 +185,14 @@ def job_order(ctx, k):
         cS = np.asarray(Sl.conjugate); cH = np.asarray(H.conjugate)
         ctx.close(np.roll(cS, 1), cH, 1e-15, "order='S': conjugate equal (as a quaternion)", key)
         ctx.close(np.asarray(Sl.to_DCM()), np.asarray(H.to_DCM()), 1e-14, "order='S': to_DCM equal", key)
+        # every other accessor that returns a quaternion in the object's own order: conj, inverse, inv (unit objects: inverse = conjugate)
+        for acc_ in ('conj', 'inverse', 'inv'):
+            try:
+                aS = np.asarray(getattr(Sl, acc_), float); aH = np.asarray(getattr(H, acc_), float)
+            except Exception as ex:
+                ctx.fail(f"order='S': {acc_} raises", key, repr(ex)[:120], 'a quaternion'); continue
+            ctx.close(np.roll(aS, 1), aH, 1e-15, f"order='S': {acc_} equal (as a quaternion, in the object's own order)", key)
+            ctx.close(np.roll(aS, 1), rq.qconj(rq.qunit(q)), 1e-14, f"order='S': {acc_} of a unit quaternion is its conjugate", key)
         for j, r in enumerate(others):
             ctx.close(np.asarray(Sl.product(r.copy())), np.asarray(H.product(r.copy())), 1e-14,
                       "order='S': product with Hamilton-ordered operand equal", f'{key} r={j}')
